@@ -4,20 +4,22 @@
    subscription mode and the operation sequence. *)
 EXTENDS RobsMC
 CONSTANTS Depth
-VARIABLES s0, hist, subAt, mode
-gvars == <<kind, s, op, s0, hist, subAt, mode>>
+VARIABLES s0, hist, subAt, mode, mx
+gvars == <<kind, s, op, s0, hist, subAt, mode, mx>>
+Size(k, st) == IF k \in {"vec", "deque", "list"} THEN Len(st) ELSE Cardinality(DOMAIN st)
+MaxOf(a, b) == IF a > b THEN a ELSE b
 
 Canon(k, st) == IF k \in {"vec", "deque", "list"} THEN st
                 ELSE LET ks == SelectSeq(<<1, 2, 3, 4>>, LAMBDA x : x \in DOMAIN st) IN [j \in 1..Len(ks) |-> <<ks[j], st[ks[j]]>>]
 NoDone(o) == o.o # "done"
-GInit == /\ kind \in Kinds /\ s0 \in States(kind) /\ s = s0 /\ op = [o |-> "none"] /\ hist = <<>>
+GInit == /\ kind \in Kinds /\ s0 \in States(kind) /\ s = s0 /\ op = [o |-> "none"] /\ hist = <<>> /\ mx = Size(kind, s0)
          /\ subAt \in 0..Depth /\ mode \in (IF kind = "list" THEN {"incr"} ELSE {"snap", "incr"})
 GNext == /\ Len(hist) < Depth
          /\ \E o \in Ops(kind, s) :
               /\ (Len(hist) < Depth - 1 => NoDone(o))          \* done only as the last operation
               /\ (kind \in {"vec", "deque", "list"} => Len(Apply(kind, s, o)) <= MaxLen + 1)
-              /\ op' = o /\ s' = Apply(kind, s, o) /\ hist' = Append(hist, o)
+              /\ op' = o /\ s' = Apply(kind, s, o) /\ hist' = Append(hist, o) /\ mx' = MaxOf(mx, Size(kind, Apply(kind, s, o)))
          /\ UNCHANGED <<kind, s0, subAt, mode>>
 GSpec == GInit /\ [][GNext]_gvars
-GEmit == Len(hist) = Depth => PrintT(ToJson([coll |-> kind, init |-> Canon(kind, s0), sub_at |-> subAt, mode |-> mode, ops |-> hist]))
+GEmit == Len(hist) = Depth => PrintT(ToJson([coll |-> kind, init |-> Canon(kind, s0), sub_at |-> subAt, mode |-> mode, ops |-> hist, tight |-> mx]))
 =============================================================================
